@@ -141,7 +141,21 @@ def spec_topic(case, op):
 IDENT = re.compile(r"^[A-Za-z_][A-Za-z0-9_]*$")
 
 
+DART_FOLLOW = {"lang": "dart", "kind": "delimiter_continues_identifier_after_variable"}
+
+
+def dart_follow_ok(case):
+    """Dart emits $name for a prefix variable: a delimiter that starts with a letter, digit or '_'
+    directly after a trailing variable is read as part of the name."""
+    toks = case["prefix"].split(".") if case["prefix"] else []
+    return not (toks and re.fullmatch(r"\{\w*\}", toks[-1], flags=re.A) and re.match(r"[A-Za-z0-9_]", case["delim"]))
+
+
 def clean(case, op):
+    return clean_core(case, op) and dart_follow_ok(case)
+
+
+def clean_core(case, op):
     """Inputs on which every language is expected to behave (a restatement of the side
     conditions of the theorems, kept independent of the Coq text)."""
     if not IDENT.match(case["scope"]) or not all(IDENT.match(o) for o in case["ops"]):
@@ -163,8 +177,6 @@ def clean(case, op):
     for n in names:
         if n in RESERVED or n in JAVA_GO_DART_KEYWORDS or keyword.iskeyword(n) or n.endswith("_handler") or n.startswith("on"):
             return False
-    if toks and toks[-1].startswith("{") and re.match(r"[A-Za-z0-9_]", case["delim"]):
-        return False
     return True
 
 
@@ -461,28 +473,35 @@ def replay_of(case, op=None, extra=None):
 
 
 def oracle(case, op):
-    """The property on the observations alone. Returns None or a description."""
+    """The property on the observations alone. Returns None or (description, signature)."""
     obs = [o for o in case["obs"] if op_of(o) == op]
-    if clean(case, op):
+    if clean_core(case, op):
         if case["errors"]:
-            return "generation failed on a well-formed scope: %s" % case["errors"]
+            return "generation failed on a well-formed scope: %s" % case["errors"], None
         want = spec_topic(case, op)
         seen = {(o["gen"], o["side"]) for o in obs}
         for g in GENS:
             for sd in ("pub", "sub"):
                 if (g, sd) not in seen and not (g == "py" and sd == "sub"):
-                    return "no %s %s topic statements found for op %s" % (g, sd, op)
+                    return "no %s %s topic statements found for op %s" % (g, sd, op), None
+        late = None
         for o in obs:
+            sig = DART_FOLLOW if (o["gen"] == "dart" and not dart_follow_ok(case)) else None
+            why = None
             if o["status"] != 0:
-                return "%s %s: topic statements do not evaluate (%s)" % (o["gen"], o["side"], o["why"])
-            if o["value"] != want:
-                return "%s %s uses topic %r, expected %r" % (o["gen"], o["side"], o["value"], want)
-        return None
+                why = "%s %s: topic statements do not evaluate (%s); the other languages use %r" % (o["gen"], o["side"], o["why"], want)
+            elif o["value"] != want:
+                why = "%s %s uses topic %r, expected %r" % (o["gen"], o["side"], o["value"], want)
+            if why and sig is None:
+                return why, None
+            if why:
+                late = (why, sig)
+        return late
     # outside the side conditions: publisher and subscriber of one language still agree when both evaluate
     for g in GENS:
         vs = {o["value"] for o in obs if o["gen"] == g and o["status"] == 0}
         if len(vs) > 1:
-            return "%s publisher and subscriber disagree: %s" % (g, sorted(vs))
+            return "%s publisher and subscriber disagree: %s" % (g, sorted(vs)), None
     return None
 
 
@@ -500,7 +519,7 @@ def judge_tokens(case, op):
 
 def run(ctx, br):
     quick = ctx.tier == "quick"
-    n = 90 if quick else 1500
+    n = 320 if quick else 4000
     rep = getattr(ctx, "replaying", None)
     if rep and rep.get("replay", {}).get("case"):
         cases = [dict(rep["replay"]["case"])]
@@ -509,7 +528,7 @@ def run(ctx, br):
     observe(ctx, cases)
 
     lab_cases = [c for c in cases if not c["errors"] and all(clean(c, o) for o in c["ops"])]
-    lab_cases = lab_cases[:(14 if quick else 240)]
+    lab_cases = lab_cases[:(40 if quick else 400)]
     lab_problems = run_lab(ctx, lab_cases)
 
     items = []          # (case, op)
@@ -533,7 +552,7 @@ def run(ctx, br):
         why = oracle(c, op)
         if why:
             oracle_fail += 1
-            ctx.violation("C08 oracle: " + why, replay_of(c, op))
+            ctx.violation("C08 oracle: " + why[0], replay_of(c, op), signature=why[1])
 
     lab_topics = 0
     for c, why in lab_problems:
@@ -562,7 +581,7 @@ def run(ctx, br):
     for i in mism:
         c, op = items[i]
         why = None if rejected(c) else oracle(c, op)
-        if not why:
+        if not why or why[1] is not None:
             r = replay_of(c, op)
             r["no_failing_input_found"] = True
             r["broken"] = "correspondence JTopic.judge (Model/Topic.v does not reproduce what the generators emit / evaluate to on this input)" + \
